@@ -6,6 +6,7 @@ It uses the `lark-parser` library for parsing the syntax using the ``c2profile.l
 from __future__ import annotations
 
 import collections
+import copy
 import logging
 import sys
 from typing import TYPE_CHECKING
@@ -721,7 +722,9 @@ class C2Profile(ConfigBlock):
                         indent += 1
                     line = []
 
-        return Reconstructor(c2profile_parser).reconstruct(self.tree, postproc)
+        # the reconstructor rewrites the tree it is given in place, work on a copy so that blocks and subtrees that
+        # were attached to this profile stay attached
+        return Reconstructor(c2profile_parser).reconstruct(copy.deepcopy(self.tree), postproc)
 
     def as_dict(self) -> dict:
         """Return the C2 Profile settings as a dictionary"""
@@ -742,7 +745,8 @@ class C2Profile(ConfigBlock):
             "http-get.client.metadata",
             "http-get.server.output",
         ]
-        items = Reconstructor(c2profile_parser)._reconstruct(self.tree)
+        # on a copy, see as_text()
+        items = Reconstructor(c2profile_parser)._reconstruct(copy.deepcopy(self.tree))
         properties = collections.defaultdict(list)
         for item in items:
             if item == "set":
